@@ -681,26 +681,7 @@ fn replay(path: &str) -> i32 {
             // n too large to store in the replay: one column holding the row's own index, targets i mod 89
             let n = inp["n"].as_u64().unwrap() as usize;
             let ts = f32::from_bits(inp["ts_bits"].as_u64().unwrap() as u32);
-            let res = guard(|| {
-                let mut x: DenseMatrix<f64> = DenseMatrix::zeros(n, 1);
-                for i in 0..n {
-                    x.set(i, 0, i as f64);
-                }
-                let y: Vec<f64> = (0..n).map(|i| (i % 89) as f64).collect();
-                let (xtr, xte, ytr, yte) = train_test_split(&x, &y, ts, shuffle);
-                let mut seen = vec![false; n];
-                let mut ok = xte.shape().0 == n_test_spec(n, ts) && xtr.shape().0 + xte.shape().0 == n;
-                for (m, yv) in [(&xtr, &ytr), (&xte, &yte)] {
-                    for r in 0..m.shape().0 {
-                        let id = m.get(r, 0) as usize;
-                        ok &= id < n && !seen[id] && yv[r] == (id % 89) as f64;
-                        if id < n {
-                            seen[id] = true;
-                        }
-                    }
-                }
-                ok
-            });
+            let res = run_tts_big(n, ts, shuffle);
             match res {
                 Err(m) => {
                     println!("REPLAY: train_test_split(n = {}, test_size = {}) panicked: {}", n, ts, m);
@@ -728,6 +709,31 @@ fn replay(path: &str) -> i32 {
     }
 }
 
+/// train_test_split on n rows that are too many to list: one column holding the row's own index,
+/// targets i mod 89.  Ok(true) iff the parts are a disjoint cover with attached targets and the stated size.
+fn run_tts_big(n: usize, ts: f32, shuffle: bool) -> Result<bool, String> {
+    guard(|| {
+        let mut x: DenseMatrix<f64> = DenseMatrix::zeros(n, 1);
+        for i in 0..n {
+            x.set(i, 0, i as f64);
+        }
+        let y: Vec<f64> = (0..n).map(|i| (i % 89) as f64).collect();
+        let (xtr, xte, ytr, yte) = train_test_split(&x, &y, ts, shuffle);
+        let mut seen = vec![false; n];
+        let mut ok = xte.shape().0 == n_test_spec(n, ts) && xtr.shape().0 + xte.shape().0 == n;
+        for (m, yv) in [(&xtr, &ytr), (&xte, &yte)] {
+            for r in 0..m.shape().0 {
+                let id = m.get(r, 0) as usize;
+                ok &= id < n && !seen[id] && yv[r] == (id % 89) as f64;
+                if id < n {
+                    seen[id] = true;
+                }
+            }
+        }
+        ok
+    })
+}
+
 fn main() {
     quiet_panics();
     let a = args();
@@ -749,6 +755,25 @@ fn main() {
         let d = gen_data(&mut rng, 123);
         check_tts(&mut out, &d, 0.2, true, 6, "corpus");
         check_tts(&mut out, &d, 0.2, false, 1, "corpus");
+    }
+    // known finding tts-size-overshoot-above-2p24 (KNOWN_FINDINGS.txt): for n > 2^24 `n as f32` can round UP, and
+    // with test_size = 1.0 the single-precision size n+1 exceeds n, so `indices[n_test..n]` panics.  The predicate:
+    // n > 2^24, the single-precision product exceeds n, and the outcome is that slice-range panic.  Anything else
+    // (a wrong split, another panic, or the same panic where the product does not exceed n) is a failure.
+    for &(n, ts) in &[(16777219usize, 1.0f32)] {
+        let overshoot = n > (1 << 24) && n_test_spec(n, ts) > n;
+        let inp = json!({"entry": "tts_big", "n": n, "ts_bits": ts.to_bits(), "shuffle": false});
+        out.eval(hash_of(&(n, ts.to_bits(), 77u8)), true);
+        out.count("tts_big");
+        match run_tts_big(n, ts, false) {
+            Err(m) if overshoot && m.contains("out of range for slice") => out.known(
+                "tts-size-overshoot-above-2p24",
+                &format!("train_test_split(n = {}, test_size = {}) panicked: {} (single-precision size {} > n)", n, ts, m, n_test_spec(n, ts)),
+            ),
+            Err(m) => out.fail("tts_permutation", &format!("panic on test_size in (0,1] with n_test >= 1: {}", m), inp),
+            Ok(false) => out.fail("tts_permutation", "parts are not a disjoint cover with attached targets / wrong size", inp),
+            Ok(true) => {}
+        }
     }
 
     // ================= correspondence =================
